@@ -695,6 +695,10 @@ func genSMClient(r *RNG, n int, op string, emit func(string)) {
 			}
 			emit(line)
 		}
+	case "redial":
+		for _, k := range []int{3, 20, 40, 70} {
+			emit(fmt.Sprintf("smclient redial n=%d", k))
+		}
 	case "dialtcp":
 		for _, via := range []string{"plain", "timeout", "ext"} {
 			to := 150 + r.Intn(100)
